@@ -55,6 +55,9 @@ pub struct Loader {
     rules: HashMap<String, SmallMap<String, eval::EvalString<String>>>,
     pools: SmallMap<String, usize>,
     builddir: Option<String>,
+    /// The files currently being parsed, outermost first; used to reject
+    /// include cycles.
+    loading: Vec<FileId>,
 }
 
 impl Loader {
@@ -202,12 +205,21 @@ impl Loader {
             match stmt {
                 Statement::Include(in_path) | Statement::Subninja(in_path) => {
                     let id = self.evaluate_path(in_path, &[&parser.vars]);
+                    if self.loading.contains(&id) {
+                        bail!(
+                            "{}: include cycle: {:?} is already being read",
+                            filename.display(),
+                            self.graph.file(id).name
+                        );
+                    }
                     let (path, bytes) = self.read_file_by_id(id)?;
                     let bytes = std::rc::Rc::new(bytes);
                     let mut sub_parser = parse::Parser::new(&bytes);
 
                     sub_parser.inherit(&parser);
+                    self.loading.push(id);
                     self.parse_with_parser(&mut sub_parser, path, envs)?;
+                    self.loading.pop();
                 }
 
                 Statement::Default(defaults) => {
@@ -259,6 +271,7 @@ pub fn read(build_filename: &str) -> anyhow::Result<State> {
         let (path, bytes) = loader.read_file_by_id(id)?;
         let mut parser = parse::Parser::new(&bytes);
 
+        loader.loading.push(id);
         loader.parse_with_parser(&mut parser, path, &[])
     })?;
 
